@@ -167,7 +167,7 @@ def emitImpl (a : Ast) (t : AstType) : G Impl :=
   match t with
   | .struct s => (mapG (emitStructField a) s.fields).bind fun fs => .ok ⟨s.name, a.isGeneric s.name, .struct fs⟩
   | .union u => (emitUnion a u).bind fun ud => .ok ⟨u.name, a.isGeneric u.name, .union ud⟩
-  | .enum e => .ok ⟨e.name, a.isGeneric e.name, .enum (e.variants.map fun v => (v.value.display, v.name))⟩
+  | .enum e => .ok ⟨e.name, a.isGeneric e.name, .enum (e.variants.map fun v => (v.value, v.name))⟩
   | .typedef td =>
     let name := td.alias.unwrapArray.asStr
     (decodeArray a td.alias .useTarget).bind fun d => .ok ⟨name, a.isGeneric name, .typedef d⟩
